@@ -61,6 +61,12 @@ type Version struct {
 	// Parents (fork versions): where candidate j starts: 0 = the root the version starts from,
 	// i > 0 = candidate i-1 of this same version (committed earlier). Missing = all 0.
 	Parents []int `json:"parents,omitempty"`
+	// Reject (chain versions, first batch): after RejectAt operations the SAME tree object is
+	// committed in a way the node database rejects ("finalized": into the previous, finalized
+	// version; "nofollow": five versions ahead; "namespace": a foreign namespace); the remaining
+	// operations follow and then the real commit.
+	Reject   string `json:"reject,omitempty"`
+	RejectAt int    `json:"reject_at,omitempty"`
 }
 
 type Scenario struct {
@@ -147,6 +153,30 @@ func coqOps(ops []Op) string {
 	}
 	return coqout.List(s)
 }
+
+// coqHist renders the operations as a history with the rejected commit attempt at position at
+// (at < 0: none).
+func coqHist(ops []Op, at int) string {
+	var s []string
+	for i, o := range ops {
+		if i == at {
+			s = append(s, "HRejected")
+		}
+		k, _ := hex.DecodeString(o.Key)
+		v, _ := hex.DecodeString(o.Val)
+		if o.K == "ins" {
+			s = append(s, "HOp (OInsert "+coqout.Bytes(k)+" "+coqout.Bytes(v)+")")
+		} else {
+			s = append(s, "HOp (ORemove "+coqout.Bytes(k)+")")
+		}
+	}
+	if at >= len(ops) {
+		s = append(s, "HRejected")
+	}
+	return coqout.List(s)
+}
+
+var badNs = common.NewTestNamespaceFromSeed([]byte("verif C13 writelog: some other namespace"), 0)
 
 // ---------- the real thing ----------
 
@@ -801,6 +831,7 @@ func runScenario(sc Scenario) (res runResult) {
 		db2coq     []string
 		applied    bool
 		emit       bool
+		rejectAt   int   // position of the rejected commit attempt among the operations (-1: none)
 		vi, bi     int   // where the batch sits in the scenario
 		storer     *cand // the candidate whose commit stored the log for this (start, end) pair
 	}
@@ -1158,7 +1189,7 @@ func runScenario(sc Scenario) (res runResult) {
 	}
 	emitCase := func(p *cand) {
 		term := fmt.Sprintf("(let o : kvmap := %s in let n : kvmap := %s in\n (mkCase o %s %s %s %s %s %s,\n  mkObs %s %s n true %s))",
-			coqKVs(p.oldKV), coqKVs(p.newKV), coqOps(p.ops), coqout.List(p.db2coq), coqout.Bool(sc.Backend2 == "pathbadger"), p.fin2, coqout.List(p.coqAtt), coqout.List(p.queries),
+			coqKVs(p.oldKV), coqKVs(p.newKV), coqHist(p.ops, p.rejectAt), coqout.List(p.db2coq), coqout.Bool(sc.Backend2 == "pathbadger"), p.fin2, coqout.List(p.coqAtt), coqout.List(p.queries),
 			coqLog(p.committed), coqout.List(p.served), coqout.List(p.coqRes))
 		res.pairs = append(res.pairs, pairResult{coq: term, desc: map[string]any{"case": sc, "pair": p.idx},
 			nontriv: len(p.committed) >= 2, key: coqKVs(p.oldKV) + coqOps(p.ops)})
@@ -1253,7 +1284,52 @@ func runScenario(sc Scenario) (res runResult) {
 			}
 			startRoot := mkRoot(start.ver, start.hash)
 			t := mkvs.NewWithRoot(nil, ndb1, startRoot)
-			for _, o := range ops {
+			rejectAt := -1
+			reject := func(at int) {
+				// a Commit of this same tree object that the node database must reject
+				if storeMode || ver.Fork || bi != 0 || ver.Reject == "" || rejectAt >= 0 {
+					return
+				}
+				var err error
+				kind := ""
+				for _, kd := range []string{ver.Reject, "finalized", "namespace", "nofollow"} {
+					if (kd == "finalized" && version >= 2) || (kd != "finalized" && !start.hash.IsEmpty()) {
+						kind = kd
+						break
+					}
+				}
+				switch kind {
+				case "finalized":
+					_, _, err = t.Commit(ctx, testNs, version-1)
+				case "nofollow":
+					_, _, err = t.Commit(ctx, testNs, version+5)
+				case "namespace":
+					_, _, err = t.Commit(ctx, badNs, version)
+				default:
+					res.hist["reject:not-applicable"]++
+					return
+				}
+				if err == nil {
+					panic(fmt.Errorf("a commit that must be rejected (%s) was accepted", kind))
+				}
+				rejectAt = at
+				cls := "other: " + err.Error()
+				switch {
+				case errors.Is(err, nodedb.ErrAlreadyFinalized):
+					cls = "already-finalized"
+				case errors.Is(err, nodedb.ErrRootMustFollowOld):
+					cls = "must-follow"
+				case errors.Is(err, nodedb.ErrBadNamespace):
+					cls = "bad-namespace"
+				case strings.Contains(err.Error(), "child roots in the same version"):
+					cls = "pathbadger-newbatch-same-version-child"
+				}
+				res.hist["reject:"+sc.Backend+":"+kind+":"+cls]++
+			}
+			for oi, o := range ops {
+				if oi == ver.RejectAt {
+					reject(oi)
+				}
 				k, _ := hex.DecodeString(o.Key)
 				v, _ := hex.DecodeString(o.Val)
 				var err error
@@ -1266,6 +1342,9 @@ func runScenario(sc Scenario) (res runResult) {
 					panic(fmt.Errorf("tree op: %w", err))
 				}
 			}
+			if ver.RejectAt >= len(ops) {
+				reject(len(ops))
+			}
 			cwl, h, err := t.Commit(ctx, testNs, version)
 			t.Close()
 			if err != nil {
@@ -1277,7 +1356,7 @@ func runScenario(sc Scenario) (res runResult) {
 				committed = append(committed, entry{k: e.Key, v: e.Value, del: e.Value == nil})
 			}
 			pairIdx++
-			p := &cand{start: start, end: end, ops: ops, committed: sortLog(committed), clog: committed, seq: bi, idx: pairIdx, emit: true, vi: vi, bi: bi}
+			p := &cand{start: start, end: end, ops: ops, committed: sortLog(committed), clog: committed, seq: bi, idx: pairIdx, emit: true, vi: vi, bi: bi, rejectAt: rejectAt}
 			p.storer = p
 			for _, q := range cands {
 				if q.end.hash.Equal(&end.hash) && q.start.hash.Equal(&start.hash) && q.start.ver == start.ver && p.storer == p {
@@ -1489,7 +1568,7 @@ func runScenario(sc Scenario) (res runResult) {
 				continue
 			}
 			if ndb2.HasRoot(mkRoot(p.start.ver, p.start.hash)) {
-				late := &cand{start: p.start, end: p.end, ops: p.ops, committed: p.committed, oldKV: p.oldKV, newKV: p.newKV,
+				late := &cand{rejectAt: -1, start: p.start, end: p.end, ops: p.ops, committed: p.committed, oldKV: p.oldKV, newKV: p.newKV,
 					idx: p.idx, fin2: fin2, db2coq: db2coqNow()}
 				res.hist["attempt:finalized-version"]++
 				attemptOn(late, 0, attempt{kind: "finalized-version", wl: p.committed, dstVer: p.end.ver, dstHash: p.end.hash, dstKV: p.newKV})
@@ -1709,6 +1788,11 @@ func genScenario(r *prng.R, idx int, count func(string)) Scenario {
 			continue
 		}
 		ver := Version{Batches: [][]Op{genBatch(r, cur, count)}}
+		if r.Chance(30) {
+			ver.Reject = []string{"finalized", "nofollow", "namespace"}[r.Intn(3)]
+			ver.RejectAt = r.Intn(len(ver.Batches[0]) + 1)
+			count("rejected-commit-" + ver.Reject)
+		}
 		// pathbadger refuses child roots of IO roots ("roots of type 'io-root' cannot have
 		// child roots"), so two hops inside one version exist only on badger
 		if sc.Type == "io" && sc.Backend == "badger" && sc.Backend2 == "badger" && r.Chance(50) {
